@@ -595,7 +595,7 @@ def load_component(resource, name=None, load_globals=True):
     filename, a path, or a list of filenames and/or paths.
     '''
     loader = _mk_loader(resource, load_globals)
-    return loader.build_component()
+    return loader.build_component(name)
 
 
 def delete_globals(m, disconnect=False):
